@@ -37,10 +37,11 @@ type MessageVfUid struct {
 // GetID implements message.Message.
 func (*MessageVfUid) GetID() uint32 { return 5000 }
 
-// MessageVfLow is the same with a v1-compatible id.
+// MessageVfLow is the same with a v1-compatible id, a payload that may end in a zero byte and an extension field.
 type MessageVfLow struct {
 	Uid  uint64
 	Kind uint8
+	Ext  uint8 `mavext:"true"`
 }
 
 // GetID implements message.Message.
